@@ -149,6 +149,9 @@ def run_task(task, patches=None):
     def case(m_, **kw):
         c = {'mode': mode, 'n': n, 'concave': bool(task.get('concave')), 'deskew': bool(task.get('deskew')), 'boxes': [[mv(m_, S(v)) for v in (x0[i], y0[i], x1[i], y1[i])] for i in range(n)],
              'param': mv(m_, S(param)), 'width': mv(m_, S(width)), 'denom': mv(m_, S(denom))}
+        if task.get('deskew'):
+            # the boxes the abstract rotation produced: the sorter ordered THESE (a page with these boxes and no slant is a second real input)
+            c['rot_boxes'] = [[mv(m_, S(z3.Real('rot%d_%s' % (i, k)))) for k in ('x0', 'y0', 'x1', 'y1')] for i in range(n)]
         c.update(kw)
         return c
 
